@@ -21,6 +21,7 @@ import (
 func init() {
 	Registry["C01"] = &Oracle{Run: runC01, Lines: func(lines []string, rep *Reporter) {
 		linesMsg(checkRoundTrip, nil)(append(derivedFieldLines(lines), lines...), rep)
+		historyReplayLines(lines, rep)
 	}}
 	Registry["C02"] = &Oracle{Run: runC02, Lines: linesC02}
 	Registry["C08"] = &Oracle{Run: runC08, Lines: linesC08}
@@ -426,6 +427,36 @@ func writeThrough(f, src field.Field, v *T, how string) bool {
 func checkOverwriteHistory(rep *Reporter, r *gen.Rng, specT, v1, v2 *T) {
 	w1 := fieldWriters[r.Intn(len(fieldWriters)-1)]
 	w2 := fieldWriters[r.Intn(len(fieldWriters))]
+	checkOverwriteHistoryWith(rep, specT, w1, v1, w2, v2)
+}
+
+// historyLines re-examines replay lines of the history checks: `F <spec> history <w1>:<v1> <w2>:<v2>` and
+// `H <msg-spec> <ops>`
+func historyReplayLines(lines []string, rep *Reporter) {
+	for _, l := range lines {
+		t := strings.Split(l, " ")
+		switch {
+		case len(t) >= 5 && t[0] == "F" && t[2] == "history":
+			st, ok := impl.ParseTree(t[1])
+			w1, a1, ok1 := strings.Cut(t[3], ":")
+			w2, a2, ok2 := strings.Cut(t[4], ":")
+			if !ok || !ok1 || !ok2 {
+				continue
+			}
+			v1, o1 := impl.ParseTree(a1)
+			v2, o2 := impl.ParseTree(a2)
+			if o1 && o2 {
+				checkOverwriteHistoryWith(rep, st, w1, v1, w2, v2)
+			}
+		case len(t) >= 3 && t[0] == "H":
+			if c, ok := newCase(t[1], strings.Split(t[2], ";")); ok {
+				checkPackUnpackAfterHistory(rep, c)
+			}
+		}
+	}
+}
+
+func checkOverwriteHistoryWith(rep *Reporter, specT *T, w1 string, v1 *T, w2 string, v2 *T) {
 	line := fmt.Sprintf("F %s history %s:%s %s:%s", specT.String(), w1, v1.String(), w2, v2.String())
 	safely(rep, line, func() {
 		s1, ok1 := impl.FieldOfTree(specT)
